@@ -107,15 +107,42 @@ LONG_LITERALS = [
     "Type.net.ipaddress in ['9.9.9.1', '9.9.9.2', '9.9.9.3', '9.9.9.4', '9.9.9.5', '9.9.9.6', '9.9.9.7', '9.9.9.8', '1.2.3.4']",
     "r.sub.n in [11, 12, 13, 14, 15, 16, 17, 18, 19, 1]",
 ]
-for _n in (2, 3, 4, 5, 6, 7, 8, 16, 17, 33, 65):
+for _n in (2, 3, 4, 5, 6, 7, 8, 15, 16, 17, 33, 64, 65, 129, 257, 1025):
     _fill = ", ".join("'9.9.9.%d'" % i for i in range(_n - 1))
     LONG_LITERALS += ["r.ip in [%s, '1.2.3.4']" % _fill, "r.ip not in (%s, '10.1.2.3')" % _fill, "r.nw in [%s, '10.0.0.0/8']" % _fill.replace("9.9.9.", "9.9.0.0/")]
+# the helpers with candidate lists / field lists of growing size (a scan may become a lookup table beyond some length): the match is
+# the last candidate; fields whose values equal their text form without hashing like it (addresses, networks, paths) included
+HELPER_SIZES = []
+for _n in (1, 2, 7, 8, 9, 15, 16, 17, 32, 33, 64, 65, 129, 257, 1025):
+    _fill = ", ".join("'q%d'" % i for i in range(_n - 1))
+    _sep = ", " if _n > 1 else ""
+    for _fields, _hit in (("['ip']", "'1.2.3.4'"), ("['nw']", "'10.0.0.0/8'"), ("['s']", "'A'"), ("['p']", "'/bin/a'"), ("['u', 's']", "'ab'"), ("['l']", "'a'"),
+                          ("['ip', 's', 'p', 'nw']", "'10.1.2.3'"), ("Type.net.ipaddress", "'1.2.3.4'"), ("Type.string", "'ab'")):
+        HELPER_SIZES.append("field_equals(r, %s, [%s%s%s])" % (_fields, _fill, _sep, _hit))
+        if _n in (1, 8, 16, 17, 65, 257):
+            HELPER_SIZES.append("field_equals(r, %s, [%s%s%s], nocase=False)" % (_fields, _fill, _sep, _hit))
+            HELPER_SIZES.append("field_contains(r, %s, [%s%s%s])" % (_fields, _fill, _sep, _hit))
+            HELPER_SIZES.append("field_contains(r, %s, [%s%s%s], word_boundary=True)" % (_fields, _fill, _sep, _hit))
+    _zf = ", ".join("'z%d'" % i for i in range(_n - 1))
+    HELPER_SIZES.append("field_equals(r, [%s%s'ip'], ['1.2.3.4'])" % (_zf, _sep))
+    HELPER_SIZES.append("field_contains(r, [%s%s's', 'p'], ['a'])" % (_zf, _sep))
+    HELPER_SIZES.append("field_regex(r, [%s%s's'], '^a')" % (_zf, _sep))
+# nesting depth as a size class: operator over operator over ... N levels (an evaluator that counts or limits depth meets it here)
+DEEP_NEST = []
+for _n in (10, 40, 99, 100, 101, 130, 180):
+    DEEP_NEST += ["not " * _n + "r.b", "r.n" + " + 0" * _n + " == 1", "r.n" + " * 1" * _n + " == r.n", "(" * _n + "r.n == 1" + " and r.b)" * _n,
+                  "(" * _n + "r.s == 'zz'" + " or r.b)" * _n, "r.n == 1" + " and r.m == 3" * _n, "1" + " <= r.m" * _n, "any(" * min(_n, 40) + "r.b" + " for _ in [1])" * min(_n, 40)]
 GENS = [
     "any(x == 'a' for x in r.l)", "all(x == 'a' for x in r.l)", "any(x in r.s for x in r.l)", "all(x != r.s for x in r.l)",
     "any(x == y for x in r.l for y in [r.s, r.t])", "all(x >= 'a' for x in ['a', 'b'])", "any(n > 1 for n in [r.n, r.m])",
     "any(lower(x) == 'a' for x in r.l)", "any(any(c == 'b' for c in x) for x in r.l)", "any(x for x in [r.b, False])",
     "all(x for x in [])", "any(x == 'a' for x in r.l) and any(x == 'b' for x in r.l)", "any(x == 'a' for x in r.l) or any(y == 'b' for y in r.l)",
     "any(lower == 'a' for lower in r.l)", "any(x == 'a' for x in r.none)", "any(f in r.s for f in Type.string)",
+    # an inner generator reusing the name of the enclosing one's variable (shadowed inside, back afterwards)
+    "any(any(x == 'a' for x in x) for x in r.l)", "all(any(x == 'b' for x in x) and x == 'b' for x in r.l)", "any(any(x == 'b' for x in x) and x == 'ab' for x in r.l)",
+    "any(x == 'a' for x in r.l if x != 'b')", "all(x == 'a' for x in r.l if x != 'b')", "any(x == 'a' for x in r.l if x == 'b')", "any(x for x in r.l if r.b)",
+    "any(x + y == 'ab' for x in r.l if x == 'a' for y in r.l if y != x)", "all(x == 'ab' for x in r.l if r.n == 3 if x)", "any(n > 1 for n in [r.n, r.m] if n < 50)",
+    "any(any(r.b for _ in [1]) for _ in [1])", "any(x for x in [1] for x in [0])", "any(x == 'a' for x in r.l if any(x == 'b' for x in r.l))",
 ]
 OUTSIDE = [
     "-r.n < 0", "+r.n == 1", "~r.n == -2", "r.n if r.b else r.m", "r.l[0] == 'a'", "f'{r.s}' == 'a'", "{'a': 1} == {}", "{r.s} == {'a'}",
@@ -133,7 +160,7 @@ MUST_REJECT = [
 
 
 def class1():
-    for a in ATOMS + TYPES + CALLS + GENS + LONG_LITERALS + HELPER_OPTS:
+    for a in ATOMS + TYPES + CALLS + GENS + LONG_LITERALS + HELPER_OPTS + HELPER_SIZES + DEEP_NEST:
         yield a
 
 
